@@ -16,8 +16,10 @@ if os.path.exists(tp):
         rows.append("| %s | %s | %s | %s |" % (pid, q.get('wall', '-'), th.get('wall', '-'), th.get('summary', '-')))
     tim = '\n'.join(rows)
 inc = sum(json.load(open(os.path.join(V, 'evidence', f)))['coverage']['inconclusive'] for f in os.listdir(os.path.join(V, 'evidence')) if f.endswith('.json'))
+nfix = len([l for l in subprocess.run(['git', '-C', '/repo', 'log', '--oneline'], capture_output=True, text=True).stdout.splitlines() if ' fix:' in l])
+tail = tail.replace('NFIX', str(nfix))
 tail = tail.replace("GENERATED_FINDINGS_TABLE", findt.strip()).replace("GENERATED_SEED_TABLE", seedt.strip()).replace("GENERATED_TIMING_TABLE", tim)
 tail = re.sub(r"\d+ obligations on the unchanged tree are `sat` in the\nabstraction and do not reproduce", "%d obligations on the unchanged tree are inconclusive (`sat` in the\nabstraction without native reproduction, or solver timeout)" % inc, tail)
-out = open(os.path.join(V, 'design_src/front.md')).read() + open(os.path.join(V, 'design_src/sec5_intro.md')).read() + per.strip() + "\n\n--------------------------------------------------------------------------------------------\n\n" + tail
+out = open(os.path.join(V, 'design_src/front.md')).read().replace('NFIX', str(nfix)) + open(os.path.join(V, 'design_src/sec5_intro.md')).read() + per.strip() + "\n\n--------------------------------------------------------------------------------------------\n\n" + tail
 open(os.path.join(V, 'DESIGN.md'), 'w').write(out)
 print(len(out.splitlines()), 'lines')
